@@ -33,11 +33,22 @@ var c16Shapes = []struct{ name, open, close string }{
 	{"obj-arr", `{"a":[`, "]}"},
 }
 
-func bombInput(shape, depth int, closed, lead bool) []byte {
+// bombInput: lead 0 none, 1 = 1 KiB of whitespace, 2 = the tower is the second
+// element of an array that starts with a scalar, 3 = the tower is the value of a
+// later member of an object whose first members are a scalar and an array.
+func bombInput(shape, depth int, closed bool, lead int) []byte {
 	s := c16Shapes[shape]
 	var sb bytes.Buffer
-	if lead {
+	tail := ""
+	switch lead {
+	case 1:
 		sb.Write(bytes.Repeat([]byte(" \n\t "), 256))
+	case 2:
+		sb.WriteString("[0,")
+		tail = "]"
+	case 3:
+		sb.WriteString(`{"a":0,"b":[1,2],"k":`)
+		tail = "}"
 	}
 	sb.Grow(depth*(len(s.open)+len(s.close)) + 8)
 	for i := 0; i < depth; i++ {
@@ -50,6 +61,7 @@ func bombInput(shape, depth int, closed, lead bool) []byte {
 		for i := 0; i < depth; i++ {
 			sb.WriteString(s.close)
 		}
+		sb.WriteString(tail)
 	}
 	return sb.Bytes()
 }
@@ -62,7 +74,7 @@ func bombChild(c *core.Ctx, args []string) int {
 	for i, a := range args {
 		iv[i], _ = strconv.Atoi(a)
 	}
-	in := bombInput(iv[0], iv[1], iv[2] == 1, iv[3] == 1)
+	in := bombInput(iv[0], iv[1], iv[2] == 1, iv[3])
 	var limit uint32
 	switch iv[4] {
 	case 1:
@@ -112,7 +124,7 @@ func c16RunChild(c *core.Ctx, cs *core.Case) (bool, string, string) {
 	err := cmd.Run()
 	out := ob.String()
 	shape := c16Shapes[cs.Ints[0]].name
-	desc := fmt.Sprintf("shape=%s depth=%d closed=%d lead-ws=%d limitmode=%d entry=%d", shape, cs.Ints[1], cs.Ints[2], cs.Ints[3], cs.Ints[4], cs.Ints[5])
+	desc := fmt.Sprintf("shape=%s depth=%d closed=%d lead=%d limitmode=%d entry=%d", shape, cs.Ints[1], cs.Ints[2], cs.Ints[3], cs.Ints[4], cs.Ints[5])
 	if ctx.Err() != nil {
 		return true, "timeout", "" // not a wall-clock oracle; reported as a cap by the caller
 	}
@@ -131,7 +143,7 @@ func c16RunChild(c *core.Ctx, cs *core.Case) (bool, string, string) {
 		if shape == "mixed" || shape == "obj-arr" {
 			per = 2
 		}
-		if depth*per <= 4096 {
+		if depth*per+1 <= 4096 {
 			return false, "C16/within-cap-not-json/" + shape, fmt.Sprintf("%s: closed nesting within the cap is not reported as JSON: %s", desc, strings.TrimSpace(out))
 		}
 	}
@@ -160,16 +172,19 @@ func c16Run(c *core.Ctx) {
 	for si := range c16Shapes {
 		for _, d := range depths {
 			for closed := 0; closed <= 1; closed++ {
-				for lead := 0; lead <= 1; lead++ {
+				for lead := 0; lead <= 3; lead++ {
 					for lm := 0; lm < 4; lm++ {
 						for entry := 0; entry <= 1; entry++ {
 							if d >= 1000000 && !c.Thorough() {
 								// quick: the largest bombs only in the modes the statement names
-								if lm > 1 || lead == 1 || (entry == 1 && lm != 0) || (d > 1000000 && si > 2) {
+								if lm > 1 || lead == 1 || (entry == 1 && lm != 0) || (d > 1000000 && si > 2) || (lead >= 2 && (lm != 0 || entry == 1)) {
 									continue
 								}
 							}
 							if d >= 1000000 && lead == 1 {
+								continue
+							}
+							if lead >= 2 && !c.Thorough() && (lm == 3 || (entry == 1 && lm != 0)) {
 								continue
 							}
 							if !c.Next() || c.Expired() {
